@@ -376,7 +376,7 @@ void campaign(Ctx& ctx)
 	bool const thorough = ctx.opt.tier == "thorough";
 	enumerate(ctx, thorough ? 5 : 4);
 	if (ctx.failed) return;
-	int const n = thorough ? 400000 : 4000;
+	int const n = thorough ? 400000 : 15000;
 	ctx.rc_campaign("resolver histories (short)", gen_case(8), n, 30, 1);
 	ctx.rc_campaign("resolver histories (long)", gen_case(40), n / 2, 100, 2);
 }
